@@ -541,7 +541,10 @@ class FieldStorageParser:
         if self.limit is None and clen >= 0:
             self.limit = clen
 
-        if ctype == 'application/x-www-form-urlencoded':
+        # only the request body itself is a query string, a part of a
+        # multipart body with that media type is an atomic part
+        if (ctype == 'application/x-www-form-urlencoded'
+                and not self.outerboundary):
             field.list = self.read_urlencoded()
         elif ctype[:10] == 'multipart/':
             field.list = self.read_multi()
